@@ -117,6 +117,12 @@ def St.Inv (st : St) : Prop :=
   (st.birthed = true → st.online = true) ∧
     (st.parked.isSome → st.birthed = false ∧ st.online = true)
 
+/-- the state in which the node task resumes when the client resolves the parked NBIRTH of
+`pk`: the blocked `node_birth` returns (birthed iff accepted), a parked rebirth command stores
+its request time -/
+def St.resumed (st : St) (pk : Parked) (ok : Bool) : St :=
+  { st with parked := none, birthed := ok, queue := [], last := pk.setLast.getD st.last }
+
 /-- every reachable state under a monotone wall clock: the invariant, the node task has not
 panicked, and no stored request time lies in the future -/
 def St.Good (st : St) : Prop :=
